@@ -19,6 +19,9 @@
   as long as they are objects); on already evaluated values they have no effect
   and emit nothing.
 
+  Numbers are their `Display` text (as in `RsjModel/Json.lean`); the writer's test
+  `n.abs() >= 2^63` is decided on that text (`bigInt`).
+
   Outcomes: the text, or the errors of the code — top level not an object
   (`expect_std_func_arg_object`), a `null` anywhere in value position ("cannot
   manifest null in TOML"; the partial text is discarded, so the place of the
@@ -58,6 +61,35 @@ def cat (a b : R) : R :=
 /-- `a` then the text `s` -/
 def post (a : R) (s : Str) : R := cat a (.ok s)
 
+/-! ## numbers: `write!(result, "{n}")`, then `".0"` if `n.abs() >= 2^63` -/
+
+/-- the token without an optional leading `-` -/
+def intBody : Str → Str
+  | [] => []
+  | c :: r => if c = 45 then r else c :: r
+
+/-- is the token an integer literal (`-`? digits)?  (`Display for f64` prints
+    `-?digits` for integral values and `-?digits.digits` otherwise, never an
+    exponent.) -/
+def isIntLit (t : Str) : Bool := !(intBody t).isEmpty && (intBody t).all Rsj.Json.isDigit
+
+/-- 2^63 = 9223372036854775808 -/
+def i64Limit : Nat := 2 ^ 63
+
+/-- `n.abs() >= 9223372036854775808.0`, decided on the number's text: an integer
+    literal whose digits denote at least 2^63.  (A finite double of that magnitude
+    is integral, so `Display` prints an integer literal; it prints the shortest
+    digits that round to the double, zero-padded, and 2^63 is itself a double with
+    the neighbours 2^63 - 1024 and 2^63 + 2048, so the printed integer is ≥ 2^63
+    exactly when the double is — this agreement of the two tests is part of the
+    correspondence check, boundary values included.) -/
+def bigInt (t : Str) : Bool :=
+  isIntLit t && decide (i64Limit ≤ Rsj.Json.digitsVal (intBody t) 0)
+
+/-- the `ValueData::Number(n)` arm: the number's text; TOML integers are 64-bit
+    signed, so an integral value of larger magnitude is written as a float -/
+def tomlNum (t : Str) : Str := if bigInt t then t ++ [46, 48] else t
+
 /-! ## `do_manifest_toml_value` -/
 
 /-- separator pushed after an array item that is not the last:
@@ -82,7 +114,7 @@ def tomlValue (ind : Str) (depth : Nat) (single : Bool) : JVal → R
   | .null => .error .nullValue
   | .bool true => .ok sTrue
   | .bool false => .ok sFalse
-  | .num t => .ok t
+  | .num t => .ok (tomlNum t)
   | .str s => .ok (escape s)
   | .arr [] => .ok [91, 93]
   | .arr (x :: xs) =>
